@@ -53,7 +53,7 @@ Example C18_static_tables_nonempty :
      ("collection.(*catalog_).GetIterator", "result 1", "fresh");
      ("collection.(*listClass_).MakeFromArray", "parameter 1 [slice]", "not-retained");
      ("collection.(*mapClass_).MakeFromMap", "parameter 1 [map]", "not-retained");
-     ("collection.(*set_).GetCollator", "result 1", "aliases receiver field collection.set_.collator_")]%string = true.
+     ("collection.(*set_).GetCollator", "result 1", "aliases receiver field collection.set_.CollatorLike0")]%string = true.
 Proof. vm_compute. repeat split; try reflexivity; repeat constructor. Qed.
 
 Theorem C18_static_no_shared_storage_closed :
